@@ -106,10 +106,6 @@ Proof.
 Qed.
 
 (* ---------- one step ---------- *)
-(* validity of an output index: inside the output image, and everything read is valid *)
-Definition valid_after (s : axstep) (im : nimg (K:=K)) (V : list Z -> Prop) (J : list Z) : Prop :=
-  in_box (ishape (run_step floorK s im)) J = true /\ step_valid floorK s (ishape im) V J.
-
 Lemma aff_step (s : axstep) (a : list K) (b : K) (J : list Z) : length a = length J -> (step_axis s < length J)%nat ->
   aff (fst (step_coef s (a, b))) (snd (step_coef s (a, b))) J
   = aff a b J + nth (step_axis s) a 0 * ((fst (step_map s) * of_Z (zget J (step_axis s)) + snd (step_map s)) - of_Z (zget J (step_axis s))).
@@ -120,7 +116,7 @@ Qed.
 
 Lemma step_affine (D : nat) (s : axstep) (im : nimg (K:=K)) (ab : list K * K) (V : list Z -> Prop) :
   (step_axis s < D)%nat -> affine_on D im ab V ->
-  affine_on D (run_step floorK s im) (step_coef s ab) (valid_after s im V).
+  affine_on D (run_step floorK s im) (step_coef s ab) (valid_after floorK s im V).
 Proof.
   intros Hax (La & Ls & HV). destruct ab as [a b]. cbn [fst snd] in *.
   split; [|split].
@@ -160,12 +156,9 @@ Proof.
 Qed.
 
 (* ---------- chains of any length ---------- *)
-Fixpoint valid_chain (l : list axstep) (im : nimg (K:=K)) (V : list Z -> Prop) : list Z -> Prop :=
-  match l with [] => V | s :: r => valid_chain r (run_step floorK s im) (valid_after s im V) end.
-
 Theorem steps_affine (D : nat) (l : list axstep) : steps_ok D l ->
   forall (im : nimg (K:=K)) (ab : list K * K) (V : list Z -> Prop), affine_on D im ab V ->
-  affine_on D (run_steps floorK l im) (steps_coef l ab) (valid_chain l im V).
+  affine_on D (run_steps floorK l im) (steps_coef l ab) (valid_chain floorK l im V).
 Proof.
   intro Hl. induction Hl as [|s r Hs Hr IH]; intros im ab V H; cbn [run_steps steps_coef valid_chain]; [exact H|].
   apply IH. apply step_affine; auto.
